@@ -45,7 +45,7 @@ m = {
  'version': 1,
  'setup_cmd': './check --build',
  'hooks': {
-  'guard': 'melda_verif',
+  'guard': 'melda_verif (ordered-map shims, re-exports, read-only accessors) and melda_verif_sched (lock / parallel-iterator seam, only used by engine S); both are rustc --cfg flags',
   'enable': "rustc --cfg melda_verif (set through /verif/harness/.cargo/config.toml [build] rustflags; /repo is a path dependency of the harness, so every check rebuilds it from the working tree)",
   'baseline_off_cmd': 'cd /repo && cargo test --workspace --no-fail-fast --offline',
   'source_commits': hooks_commits(),
